@@ -414,6 +414,11 @@ func TestFixedSpecs(t *testing.T) {
 		"grammar g;\nRA = /r[<>]/\nCA = /c[;\\]]/\nPA = /p[Ab]/\nQA = /q[BC]/\nSA = /s[ad]/\nTA = /t[bc]/\nUA = /u[ae]/\nVA = /v[bd]/\nWA = /w[\\x21\\x40]/\nXA = /x[\\x20\\x41]/\nstart = RA | CA | PA | QA | SA | TA | UA | VA | WA | XA;\n",
 		// symbols outside the basic plane and outside Unicode (eight-digit escapes), alone in a group and sharing one
 		"grammar g;\nEMO = /\\x0001F600\\x00010000\\x0010FFFF/\nNEG = /a(\\xFFFFFFFF|b)c/\nOUT = /[y\\xFFFFFFFF]z/\nBIG = /\\x00110000|\\x7FFFFFFF|\\x80000000/\nstart = EMO | NEG | OUT | BIG;\n",
+		// two tokens that end in the same repetition behind different prefixes (states with equal outgoing transitions but
+		// for their own number); a state with exactly 127 outgoing symbols that are not all ASCII
+		"grammar g;\nID = /[a-z]+/\nVAR = /\\$[a-z]+/\nAT = /@[a-z]+/\nNUM = /[0-9]+/\nHEX = /#[0-9]+/\nstart = ID | VAR | AT | NUM | HEX;\n",
+		"grammar g;\nSTR = /\"([^\"\\x0A]|\\x00E9)*\"/\nstart = STR;\n",
+		"grammar g;\nQQ = /'([^'a]|\\x4E2D)+'/\nstart = QQ \"a\";\n",
 		// symbol groups of one state that interleave (no group is a range), of equal and of different sizes
 		"grammar g;\nEVEN = /[02468]+/\nODD = /[13579]+/\nstart = EVEN | ODD;\n",
 		"grammar g;\nAA = /[acegikmoqsuwy][0-9]/\nBB = /[bdfhjlnprtvxz]x/\nCC = /[AEIOU]+/\nDD = /[BCDFGHJKLMNPQRSTVWXYZ]y/\nstart = AA | BB | CC | DD;\n",
